@@ -277,28 +277,31 @@ def main() -> int:
             d2 = copy.deepcopy(d)
             c2 = d2["components"]["schemas"]
             late = r.random() < 0.6
-            c2["ZqW"] = {"type": "object", "properties": {"fine": {"type": "string"}, "zq_late": {"$ref": badref}}} if late else {"$ref": badref}
+            # half of the families use schema names that only become identifiers with the field prefix (leading digit)
+            PX_ = "3" if (bi + len(bad_key)) % 4 < 2 else ""
+            W_ = PX_ + "ZqW"
+            c2[W_] = {"type": "object", "properties": {"fine": {"type": "string"}, "zq_late": {"$ref": badref}}} if late else {"$ref": badref}
             fam = {
-                "ZqViaProp": {"type": "object", "properties": {"p": R_("ZqW")}},
-                "ZqViaItems": {"type": "object", "properties": {"l": {"type": "array", "items": R_("ZqW")}}},
-                "ZqViaAddl": {"type": "object", "additionalProperties": R_("ZqW")},
-                "ZqViaAllOf": {"allOf": [R_("ZqW"), {"type": "object", "properties": {"own": {"type": "integer"}}}]},
-                "ZqViaUnion": {"type": "object", "properties": {"u": {"oneOf": [R_("ZqW"), {"type": "integer"}]}}},
-                "ZqViaNullable": {"type": "object", "properties": {"n": {"oneOf": [R_("ZqW"), {"type": "null"}]} if str(d.get("openapi", "")).startswith("3.1") else {"allOf": [R_("ZqW")], "nullable": True}}},
-                "ZqSecond": {"type": "object", "properties": {"via": R_("ZqViaAddl"), "via2": {"type": "array", "items": R_("ZqViaItems")}}},
+                PX_ + "ZqViaProp": {"type": "object", "properties": {"p": R_(W_)}},
+                PX_ + "ZqViaItems": {"type": "object", "properties": {"l": {"type": "array", "items": R_(W_)}}},
+                PX_ + "ZqViaAddl": {"type": "object", "additionalProperties": R_(W_)},
+                PX_ + "ZqViaAllOf": {"allOf": [R_(W_), {"type": "object", "properties": {"own": {"type": "integer"}}}]},
+                PX_ + "ZqViaUnion": {"type": "object", "properties": {"u": {"oneOf": [R_(W_), {"type": "integer"}]}}},
+                PX_ + "ZqViaNullable": {"type": "object", "properties": {"n": {"oneOf": [R_(W_), {"type": "null"}]} if str(d.get("openapi", "")).startswith("3.1") else {"allOf": [R_(W_)], "nullable": True}}},
+                PX_ + "ZqSecond": {"type": "object", "properties": {"via": R_(PX_ + "ZqViaAddl"), "via2": {"type": "array", "items": R_(PX_ + "ZqViaItems")}}},
             }
             ks = list(fam)
             r.shuffle(ks)
             if r.random() < 0.5:
-                c2["ZqW"] = c2.pop("ZqW")  # the failing schema declared before its users ...
+                c2[W_] = c2.pop(W_)  # the failing schema declared before its users ...
             for k_ in ks:
                 c2[k_] = fam[k_]
             if r.random() < 0.5:
-                c2["ZqW"] = c2.pop("ZqW")  # ... or after them
+                c2[W_] = c2.pop(W_)  # ... or after them
             okj = lambda sch: {"description": "ok", "content": {"application/json": {"schema": sch}}}  # noqa: E731
-            d2["paths"]["/zq-dep-body"] = {"post": {"operationId": "zq_dep_body", "requestBody": {"content": {"application/json": {"schema": R_("ZqW")}}}, "responses": {"200": {"description": "ok"}}}}
-            d2["paths"]["/zq-dep-resp"] = {"get": {"operationId": "zq_dep_resp", "responses": {"200": okj({"type": "array", "items": R_("ZqViaProp")})}}}
-            d2["paths"]["/zq-dep-addl"] = {"get": {"operationId": "zq_dep_addl", "responses": {"200": okj(R_("ZqViaAddl"))}}}
+            d2["paths"]["/zq-dep-body"] = {"post": {"operationId": "zq_dep_body", "requestBody": {"content": {"application/json": {"schema": R_(W_)}}}, "responses": {"200": {"description": "ok"}}}}
+            d2["paths"]["/zq-dep-resp"] = {"get": {"operationId": "zq_dep_resp", "responses": {"200": okj({"type": "array", "items": R_(PX_ + "ZqViaProp")})}}}
+            d2["paths"]["/zq-dep-addl"] = {"get": {"operationId": "zq_dep_addl", "responses": {"200": okj(R_(PX_ + "ZqViaAddl"))}}}
             j0 = run.job(d, want=["tree"])
             j1 = run.job(d2, want=["tree"], sandbox=[{"a": "import_all"}])
             j0["name"] = j1["name"] = f"pkg{bi}"
@@ -310,6 +313,10 @@ def main() -> int:
             continue
         bi, base_id, bad_key, late = dinfo[j["id"]]
         b0, b1 = dres[base_id], dres[j["id"]]
+        if not (b0.get("_error") or b0.get("exc") or not b0.get("accepted") or b0.get("diags")) and not b1.get("_error") and (b1.get("exc") or not b1.get("accepted")):
+            vd.violation(f"bad_reference_stops_generation:schema_{bad_key}", f"{bases[bi][0]}: a schema with a {bad_key} and its dependants make the generator {'crash: ' + str((b1.get('exc') or {}).get('type')) if b1.get('exc') else 'reject the whole document'}",
+                         {"base": bases[bi][1], "variant": j["doc"], "exc": b1.get("exc")})
+            continue
         if any(x.get("_error") or x.get("exc") or not x.get("accepted") for x in (b0, b1)) or b0.get("diags"):
             continue
         ev.count("dependant_family_pairs")
